@@ -5,7 +5,7 @@
    that (in-place numpy updates, shared dictionaries) is what the correspondence and the
    before/after oracle check on every run (tested_only: the numpy aliasing of boundary matrices). *)
 From Coq Require Import String ZArith Bool Arith List.
-From SV Require Import Names NamesFacts ListFacts Rep Fresh Complex Atomic RepInv Reach Homology Filtration Gen World WorldProofs.
+From SV Require Import Names NamesFacts ListFacts Rep Fresh Complex Atomic RepInv Reach Homology Filtration Gen World WorldProofs CtorFrame.
 
 (* any read-only query -- Betti numbers, normal forms, cycle bases, boundaries, Euler
    characteristic and integral, comparisons, ... -- returns the world it was given *)
@@ -25,3 +25,11 @@ Theorem C08_copy_writes_only_new_cells :
   forall h, fst h <> uid -> heap_get hp' h = heap_get hp h.
 Proof. intros hp src uid hp' r' x H. now destruct (copy_new_fresh _ _ _ _ _ _ H) as (_ & _ & ?). Qed.
 Print Assumptions C08_copy_writes_only_new_cells.
+
+(* copy, deepcopy, compose, flagComplex, JSON decoding, snap, vietorisRipsComplex and one step of
+   complexes() change no variable of the world but the one they bind *)
+Theorem C08_constructors_bind_only_result :
+  forall w c x w' o y, ctor_result c = Some x -> exec w c = (w', o) -> y <> x ->
+  vget (w_vars w') y = vget (w_vars w) y.
+Proof. exact ctor_binds_only_result. Qed.
+Print Assumptions C08_constructors_bind_only_result.
